@@ -272,6 +272,8 @@ CHECK = dict(
         ('verdict_about_the_block_as_received', 'result == old(crc_ok(self))', ['C08']),
         ('wire_data_unchanged', 'wire_btsd(self) == old(wire_btsd(self)) and self.crc_type == old(self.crc_type)', []),
     ],
+    # a data field that is set is not touched by checking (only an unset one is filled in from the payload object)
+    case_ensures={'canonical': [('set_data_kept', 'implies(old(self.btsd) is not None, eqv(self.btsd, old(self.btsd)))', [])]},
 )
 
 FUNCS = {
@@ -301,8 +303,10 @@ FUNCS = {
                                       'eqv(b.crc_value, old(b.crc_value)) and b.crc_type == old(b.crc_type))'),
             ('primary_verdict_stable', 'forall(p, "Pkt[PrimaryBlock]", crc_ok(p) == old(crc_ok(p)))'),
             ('primary_crc_field_stable', 'forall(p, "Pkt[PrimaryBlock]", eqv(p.crc_value, old(p.crc_value)))'),
+            ('set_data_kept', 'forall(b, "Pkt[CanonicalBlock]", implies(old(b.btsd) is not None, eqv(b.btsd, old(b.btsd))))'),
         ])},
         ensures=[
+            ('set_data_kept', 'forall(b, "Pkt[CanonicalBlock]", implies(old(b.btsd) is not None, eqv(b.btsd, old(b.btsd))))', []),
             ('fails_iff_some_crc_bad', 'is_empty_set(result) == old(crc_all_valid(self))', ['C08']),
             ('crc_fields_as_before', 'forall(b, "Pkt[CanonicalBlock]", eqv(b.crc_value, old(b.crc_value))) and '
                                      'forall(p, "Pkt[PrimaryBlock]", eqv(p.crc_value, old(p.crc_value)))', ['C08']),
